@@ -306,7 +306,15 @@ class Reporter:
                 continue
             seen.add(path)
             log(f"VIOLATION property={self.pid} replay={path}")
+            global VIOLATION_PRINTED
+            VIOLATION_PRINTED = True
         return 1 if self.violations else 0
+
+
+# set once a VIOLATION line (with its replay file) has been printed: a tool
+# problem reported afterwards (observations that could not be judged, a stage
+# that aborted) must not turn the run's exit status 1 into 2 (./check)
+VIOLATION_PRINTED = False
 
 
 def _match_field(actual, expected):
